@@ -15,6 +15,10 @@ package atpcs
 //	close           call Close synchronously; aclose: in a goroutine; jclose: wait for it
 //	await N         wait until the server has consumed N client messages
 //	awaitws R       wait until the server has consumed the work-start of run R
+//	awaitwritten N  wait until N writes of the server have completed (on the unbuffered pipe: have
+//	                been read by the client)
+//	sleep N         wait N milliseconds
+//	open R          open the gate named R ("consumer:<run>", "write")
 //	mark N          tell the server script that the director got this far (server: expectmark N)
 //	awaitsent N     wait until the client has decoded N server items (N-th "dec" event)
 type DOp struct {
@@ -31,6 +35,9 @@ type DOp struct {
 	// exec only: Pre signals (for the run itself) are already queued in a buffered signalsToStep
 	// channel when Execute is called
 	Pre int `json:"pre,omitempty"`
+	// exec only: Hold: the consumer of this run's signalsFromStep channel does not start receiving
+	// before the director opens the gate "consumer:<run>" (a caller that is slow to pick signals up)
+	Hold bool `json:"hold,omitempty"`
 }
 
 // SOp is one operation of the scripted server.
@@ -49,6 +56,7 @@ type DOp struct {
 //	sigasdone R / errasdone R    a work-done frame carrying a signal / error payload (type flip)
 //	doneassig R X / doneaserr R X  a signal / error frame carrying a work-done payload
 //	done1 X      ATP v1 bare work-done
+//	garbage      malformed bytes
 //	eof          end the server-to-client stream
 type SOp struct {
 	Op string `json:"op"`
@@ -105,7 +113,11 @@ type Job struct {
 	Fault     *Fault  `json:"fault,omitempty"`
 	// WriteFailAfter >= 0: the client-to-server writer fails from the (n+1)-th write on
 	WriteFailAfter int `json:"wfail"`
-	TimeoutMs      int `json:"timeout_ms"`
+	// WriteFailDeliver: the first failing write is a write whose bytes DO reach the peer; it then
+	// stays pending until the director opens the gate "write" and returns an error (a write side
+	// that fails independently: the peer already acts on the message the client believes lost)
+	WriteFailDeliver bool `json:"wfaildeliver,omitempty"`
+	TimeoutMs        int  `json:"timeout_ms"`
 }
 
 // Snap is the abstract client state at the end of a critical section.
